@@ -701,6 +701,39 @@ static void run_forceauto(void)
    enc_run(16000, 2, 2048, ops, n, &r);
 }
 
+/* starvation histories for multistream / surround / ambisonics / projection encoders: tiny bit-rates and buffers, CBR and
+   VBR, all frame sizes, then OPUS_SET_APPLICATION attempts — looking for a stream that codes a frame before stream 0 does
+   (CONTRACT(ms-first)) and for a partially applied SET_APPLICATION (S4 predicate ctl-reject) */
+static void run_msstarve(uint64_t seed, long cases)
+{
+   vrng r; long cidx; static msop mops[64];
+   r.s = seed * 0x9FB21C651E98DF25ULL + 29;
+   for (cidx = 0; cidx < cases; cidx++) {
+      static const struct { int nch, st, cp; unsigned char map[8]; } L[6] = {{2, 1, 1, {0, 1}}, {3, 2, 1, {0, 1, 2}}, {2, 2, 0, {1, 0}},
+                                                                           {4, 3, 1, {2, 0, 1, 3}}, {3, 3, 0, {0, 1, 2}}, {4, 2, 2, {0, 1, 2, 3}}};
+      static const int num[9] = {1, 2, 4, 8, 16, 24, 32, 40, 48};
+      int Fs = FSS[vbelow(&r, 5)], app = APPS[vbelow(&r, 3)], n = 0, i, k, which = vbelow(&r, 10);
+      int fsz = Fs / 400 * num[vbelow(&r, 9)], nch = 1 + vbelow(&r, 8);
+#define MOP_S(i_, v_) do { mops[n].kind = 's'; mops[n].id = (i_); mops[n].v = (v_); mops[n].p = 0; mops[n].fsz = 0; mops[n].bytes = 0; mops[n].sig = 0; n++; } while (0)
+      MOP_S(4006, vchance(&r, 65) ? 0 : 1);
+      MOP_S(4002, vchance(&r, 10) ? -1 : vchance(&r, 10) ? -1000 : 500 * nch + (int)vbelow(&r, vchance(&r, 70) ? 6000 : 60000));
+      if (vchance(&r, 30)) MOP_S(4040, 5000 + (int)vbelow(&r, 10));
+      if (vchance(&r, 20)) MOP_S(4016, 1);
+      if (vchance(&r, 20)) MOP_S(4010, vrange(&r, 0, 10));
+      k = vrange(&r, 1, 4);
+      for (i = 0; i < k; i++) { memset(&mops[n], 0, sizeof mops[n]); mops[n].kind = 'E'; mops[n].fsz = fsz; mops[n].sig = vbelow(&r, 5);
+         mops[n].bytes = vchance(&r, 50) ? 4000 : vchance(&r, 50) ? vrange(&r, 1, 40) : vrange(&r, 20, 400); n++;
+         if (vchance(&r, 20)) MOP_S(4002, 500 * nch + (int)vbelow(&r, 8000)); }
+      MOP_S(4000, APPS[vbelow(&r, 3)]);
+      memset(&mops[n], 0, sizeof mops[n]); mops[n].kind = 'g'; mops[n].id = 4001; n++;
+      if (which < 3) { int l = vbelow(&r, 6); msenc_run(Fs, L[l].nch, L[l].st, L[l].cp, L[l].map, app, mops, n, &r); }
+      else if (which < 6) mssur_run(Fs, nch, 1, app, mops, n, &r);
+      else if (which < 8) { static const int amb[] = {1, 3, 4, 6, 9, 11, 16, 18}; mssur_run(Fs, amb[vbelow(&r, 8)], 2, app, mops, n, &r); }
+      else if (which < 9) mssur_run(Fs, 1 + vbelow(&r, 6), 255, app, mops, n, &r);
+      else { static const int pj[] = {4, 6, 9, 11}; proj_run(Fs, pj[vbelow(&r, 4)], app, mops, n, &r); }
+   }
+}
+
 /* ------------------------------------------------------------------ create / allocation failure */
 static void create_one(const char *kind, int Fs, int nch, int a, int b, const unsigned char *map, int app, int failk)
 {
@@ -1019,6 +1052,7 @@ int main(int argc, char **argv)
    else if (argc >= 2 && !strcmp(argv[1], "forceauto")) run_forceauto();
    else if (argc >= 2 && !strcmp(argv[1], "fssbig")) run_fssbig();
    else if (argc >= 2 && !strcmp(argv[1], "stdin")) run_lines();
+   else if (argc >= 4 && !strcmp(argv[1], "msstarve")) run_msstarve(strtoull(argv[2], 0, 10), atol(argv[3]));
    else if (argc >= 4 && !strcmp(argv[1], "reapp")) run_reapp(strtoull(argv[2], 0, 10), atol(argv[3]));
    else if (argc >= 4 && !strcmp(argv[1], "chain")) run_chain(strtoull(argv[2], 0, 10), atol(argv[3]));
    else if (argc >= 3 && !strcmp(argv[1], "create")) run_create(atoi(argv[2]));
